@@ -279,6 +279,27 @@ func (m *MonC01) OnQuiescent(w *World, epoch int) {
 		if rev == 0 {
 			continue
 		}
+		// the refusal must be the verdict of the set's last pass (a condition left over from an
+		// earlier pass while later passes fail on something else says nothing)
+		var last *Pass
+		for _, q := range w.Passes {
+			if q.Done && q.Ctrl == k.Kind && q.Key.Name == k.Name && q.Key.Namespace == k.Namespace {
+				last = q
+			}
+		}
+		fresh := false
+		if last != nil && last.Err == nil && !last.Faulted && !last.Crashed {
+			for _, rq := range last.Reqs {
+				if rq.Verb == "update-status" && rq.Succeeded() {
+					if lc := FindCond(rq.Body, "Available"); lc != nil && lc.Reason == "CollisionDetected" && lc.Message == c.Message {
+						fresh = true
+					}
+				}
+			}
+		}
+		if !fresh {
+			continue
+		}
 		var previous []store.Obj
 		prev, _ := store.Get(set, "spec", "previous").([]any)
 		for _, px := range prev {
